@@ -77,3 +77,21 @@ claim("C19",
       "Not covered: Is() semantics (see above); errors produced by user callbacks or the Transport.",
       "value-origin classification of every error return (SSA) + go/types method sets + handle typestate",
       "DESIGN.md section 4, C19")
+
+claim("C08",
+      "Whole property (set equality of broker-side subscriptions at quiescence, for all call histories and cut placements) depends on slice contents manipulated by index arithmetic (applyTo) and on interleavings with pending entries; it is NOT decided, and known value-level weaknesses of the bookkeeping (duplicates, repeated filters) are outside what shape rules can see. Decided: the configuration clauses — the resubscribe decision as a boolean function equals initialized AND (NOT sessionPresent OR AlwaysResubscribe) on all 8 rows (evaluated from the branch structure, any equivalent rewriting passes); 'initialized' starts false, only becomes true, and only after that iteration's decision; Resubscribe issues every element of an in-task snapshot of the established list through the queued subscribe path; subscribe/unsubscribe closures apply their own argument to the list before issuing the request and nothing else touches the list; the order of (un)subscribe requests survives queuing and retransmission.",
+      "Not covered: correctness of the bookkeeping for repeated filters, duplicates inside one call, changed QoS; the broker's table.",
+      "truth-table evaluation of the guarded region's branch structure + phi-leaf dataflow + who-may-access + CFG dominance",
+      "DESIGN.md section 4, C08")
+
+claim("C09",
+      "Whole property mixes real time, open-transport counts and stop conditions under all schedules; elapsed time is NOT decided. Decided: the loop's shape — the waited value starts at ReconnectWaitBase, is reset to it only on the success edge of Connect, every way round the loop passes the timed wait on the current value, and the carried value is a growth by a constant factor >= 2 of the value just waited (clamped to Max only when larger); on every path from a successful dial to the next dial the client is closed and its Done() awaited; every loop wait has returning `disconnected` and ctx.Done() cases, done is closed by a deferred call, Disconnect closes `disconnected` before it disconnects and waits observing its context, the loop context is replaced only inside the once-only success block; a connection that ended with Err() == nil is not redialled; exactly one CONNECT per dial with the caller's client id and options, forwarded unchanged down to the packet.",
+      "Not covered: wall-clock durations, races between Disconnect and a dial in progress, Disconnect during an outage leaving the task goroutine waiting.",
+      "phi-leaf dataflow of the back-off value + CFG must-pass-through between dial sites + select case classification",
+      "DESIGN.md section 4, C09")
+
+claim("C14",
+      "NOT decided: which filters are valid and which topics a filter matches (MQTT 4.7) — both quantify over all strings and are computed by data-dependent loops; no structural necessary condition short of re-deriving the algorithm separates a correct matcher from an incorrect one, and a rule keyed to the present loop shape would fire on behaviour-preserving rewrites. Decided: the dispatch clause only — Handle tail-appends {newTopicFilter(filter) result, handler} exactly on the nil-error edge; Serve visits the handlers in ascending index order without early exit and invokes an element's handler exactly when that same element's filter.Match(message.Topic) is true; topicFilter values are constructed only by newTopicFilter.",
+      "Not covered (explicitly): any change to the level walk in topicFilter.Match or to the checks in newTopicFilter.",
+      "CFG dominance + element/index value identity + who-constructs over go/types",
+      "DESIGN.md section 4, C14")
